@@ -36,7 +36,7 @@ def main():
     import re
     with open(demo) as f:
         text = f.read()
-    text2 = re.sub(r"'/tmp/w\d-C\d\d/?'", 'os.getcwd()', text)
+    text2 = re.sub(r"'/tmp/w\d+-C\d\d/?'", 'os.getcwd()', text)
     if text2 != text:
         demo = os.path.join(tempfile.mkdtemp(prefix='cardutil-seed-demo-'), 'demo.py')
         with open(demo, 'w') as f:
